@@ -113,6 +113,11 @@ def lake_build(targets):
     """Build targets; returns (ok, failing_decls, log_tail)."""
     rc, out, err, dt = run(["lake", "build"] + targets, cwd=LEAN)
     text = out + err
+    if rc != 0 and not re.search(r"error: [^\s:]+\.lean:\d+", text):
+        # no Lean error in the log: a worker was killed (memory pressure from concurrent builds) -- build again
+        rc, out, err, dt2 = run(["lake", "build"] + targets, cwd=LEAN)
+        text = out + err
+        dt += dt2
     failing = []
     if rc != 0:
         for m in re.finditer(r"error: ([^\s:]+\.lean):(\d+):(\d+):\s*(.*)", text):
@@ -148,6 +153,12 @@ open Lean in
     let axs ← collectAxioms n
     IO.println s!"THM {{n}} AXIOMS {{axs.toList}}"
 """
+
+
+def leanchecker(thm_modules):
+    """Independent re-check of the compiled theorem modules by `leanchecker` (thorough tier)."""
+    rc, out, err, dt = run(["lake", "env", "leanchecker"] + list(thm_modules), cwd=LEAN)
+    return rc == 0, (out + err)[-400:].replace("\n", " | "), dt
 
 
 def audit(thm_modules):
